@@ -10,6 +10,7 @@ use vkit::ledger::Ledger;
 static GLOBAL: Ledger = Ledger;
 
 mod arcad;
+mod cstrad;
 mod vecad;
 mod wakerad;
 
@@ -23,6 +24,7 @@ fn main() {
     match args[1].as_str() {
         "vec" => vecad::main(&args[2..]),
         "arc" => arcad::main(&args[2..]),
+        "cstr" => cstrad::main(&args[2..]),
         "waker" => wakerad::main(&args[2..]),
         m => {
             eprintln!("TOOL-ERROR unknown module {}", m);
